@@ -11,6 +11,7 @@ from . import nf
 from .src import Unknown
 
 _COMM = (ast.Add, ast.Mult, ast.BitOr, ast.BitAnd, ast.BitXor)
+_ORIENT = {ast.Lt: ast.Gt, ast.Gt: ast.Lt, ast.LtE: ast.GtE, ast.GtE: ast.LtE, ast.Eq: ast.Eq, ast.NotEq: ast.NotEq}
 _cache = {}
 
 
@@ -54,6 +55,18 @@ def _m(n, p, b):
     if isinstance(p, ast.Expr) and isinstance(n, ast.Expr):
         return _m(n.value, p.value, b)
     if type(n) is not type(p):
+        return False
+    if isinstance(p, ast.Compare) and len(p.ops) == 1 and len(n.ops) == 1 and type(p.ops[0]) in _ORIENT:
+        # orientation-insensitive: `a <= b` also matches `b >= a`
+        save = dict(b)
+        if type(n.ops[0]) is type(p.ops[0]) and _m(n.left, p.left, b) and _m(n.comparators[0], p.comparators[0], b):
+            return True
+        b.clear()
+        b.update(save)
+        if type(n.ops[0]) is _ORIENT[type(p.ops[0])] and _m(n.comparators[0], p.left, b) and _m(n.left, p.comparators[0], b):
+            return True
+        b.clear()
+        b.update(save)
         return False
     if isinstance(p, ast.BinOp) and isinstance(p.op, _COMM) and type(n.op) is type(p.op):
         save = dict(b)
